@@ -17,7 +17,10 @@ Inductive case :=
            (obsDcid obsScid obsPN obsPNLen : Z) (obsToken : option string) (obsHdrLen : Z)
 | ValidateCase (specDcid specScid ipn : Z) (lens : list Z) (single udpMin : Z) (plans : list (Z * Z)) (maxPacket : Z)
                (* observed: the whole dial failed with "invalid QUICSpec" before sending anything *)
-               (obsRejected : bool).
+               (obsRejected : bool)
+| HeaderCase (ver : Z) (dcid scid token : string) (lf pn pnLen : Z)
+             (* observed: the packet's header bytes after the independent observer removed header protection *)
+             (obsHeader : string).
 
 Definition ohx (o : option string) : option (list Z) :=
   match o with Some s => Some (hx s) | None => None end.
@@ -77,7 +80,7 @@ Definition dial_obs (specDcid specScid ipn : Z) (lens : list Z) (single : Z)
   {| do_dcid := d; do_scid := s; do_pn := pn; do_pnLen := pl; do_token := tok;
      do_hdr := hdrLen d s (tokLenOf tok) pl |}.
 
-Inductive obs := FObs (o : fobs) | DObs (o : dobs) | VObs (rejected : bool).
+Inductive obs := FObs (o : fobs) | DObs (o : dobs) | VObs (rejected : bool) | HObs (cls : Z) (bytes : list Z).
 
 Definition model_obs (c : case) : obs :=
   match c with
@@ -87,6 +90,8 @@ Definition model_obs (c : case) : obs :=
     DObs (dial_obs specDcid specScid ipn lens single expl ctl prefix tail conftok obsDcid)
   | ValidateCase specDcid specScid ipn lens single udpMin plans maxPacket _ =>
     VObs (negb (validateSpec specScid specDcid ipn lens single udpMin plans maxPacket))
+  | HeaderCase ver dcid scid token lf pn pnLen _ =>
+    let '(c, b) := initialHeaderBytes ver (hx dcid) (hx scid) (hx token) lf pn pnLen in HObs c b
   end.
 
 (** an absent token and an empty token give the same wire image; the harness reports what
@@ -102,5 +107,6 @@ Definition check_case (c : case) : bool :=
     && (do_hdr o =? oh)
     && ((specDcid >? 0) || ((upMinConnectionIDLenInitial <=? od) && (od <=? upMaxConnIDLen)))
   | ValidateCase _ _ _ _ _ _ _ _ orej, VObs r => Bool.eqb r orej
+  | HeaderCase _ _ _ _ _ _ _ oh, HObs c b => (c =? 0) && zeqb_list b (hx oh)
   | _, _ => false
   end.
